@@ -42,7 +42,11 @@ on the real loky backend -- the row (2224, 16, Buf 0.583) comes back as
 ``[W0@Buf] for m [T1@Buf] for k [T0@Buf] for n`` instead of ``[W0@Buf] for m [T0@Buf] for n
 [T1@Buf] for k``: two templates produce equal-cost pmappings and the first ARRIVING one
 survives (pmapping_groups[...].extend() in arrival order, then first-of-duplicates Pareto).
-Objective vectors are unaffected.  Proposed patch (checked on a scratch copy: removes the
+Objective vectors are unaffected.  Thorough tier, same family: with ENERGY|LATENCY only
+(spec MM1-422/thr/EL) the tie is between mappings of equal (energy, latency) but different
+Buf usage (0.917 vs 0.583 of the buffer), 19 of the 123 <=1-deviation / named schedules of the
+site flip it, e.g. choices (4,); MM2-2222/EL shows it too; free-running real loky runs with
+n_jobs=2 hit it as well (the two tied jobs race).  Proposed patch (checked on a scratch copy: removes the
 violation): consume that site in job order, i.e. drop ``return_as="generator_unordered"``
 from the ``parallel(calls, pbar="Generating pmappings")`` call (list mode keeps the progress
 bar behaviour and re-orders by index).
@@ -127,22 +131,22 @@ SPECS = {
                         policy=(5, 12, 54), quick_policy=(5, 0, 12), isolated=True, real=True,
                         tiers=("quick", "thorough")),  # isolated: thorough only (see configs_for)
     "MV2-222/bufY/ELR": dict(wl=("MV2", (2, 2, 2)), h2=dict(size=24, buf_may_keep="Y"), metrics="ELR",
-                             policy=(5, 12, 54), isolated=True, real=True, tiers=("quick", "thorough")),
+                             policy=(5, 12, 54), isolated=False, real=True, tiers=("quick", "thorough")),
     "MV2-222/ELR": dict(wl=("MV2", (2, 2, 2)), h2=dict(size=24), metrics="ELR",
-                        policy=(5, 6, 12), quick_policy=(0, 0, 0), isolated=False, real=False,
+                        policy=(5, 0, 12), quick_policy=(0, 0, 0), isolated=False, real=False,
                         tiers=("quick", "thorough")),
     "MM1-422/thr/EL": dict(wl=("MM1", (4, 2, 2)), h2=dict(size=96, main_thr=8, buf_thr=16), metrics="EL",
                            policy=(5, 12, 54), isolated=False, real=True, tiers=("thorough",)),
     "MV2-222/bufYZ/ELR": dict(wl=("MV2", (2, 2, 2)), h2=dict(size=24, buf_may_keep="Y | Z"), metrics="ELR",
-                              policy=(5, 6, 12), isolated=False, real=True, tiers=("thorough",)),
+                              policy=(5, 0, 12), isolated=False, real=True, tiers=("thorough",)),
     "MM2-2222/bufT1/ELR": dict(wl=("MM2", (2, 2, 2, 2)), h2=dict(size=64, buf_may_keep="T1"), metrics="ELR",
-                               policy=(4, 6, 12), isolated=False, real=True, tiers=("thorough",)),
+                               policy=(4, 0, 12), isolated=False, real=True, tiers=("thorough",)),
     "MM2-2222/EL": dict(wl=("MM2", (2, 2, 2, 2)), h2=dict(size=64), metrics="EL",
                         policy=(0, 0, 0), isolated=False, real=False, tiers=("thorough",)),
     "MV3-2222/ELR": dict(wl=("MV3", (2, 2, 2, 2)), h2=dict(size=24, buf_may_keep="Y | Z"), metrics="ELR",
-                         policy=(0, 0, 0), isolated=False, real=False, tiers=("thorough",)),
+                         policy=(0, 0, 0), named=("reversal",), isolated=False, real=False, tiers=("thorough",)),
     "FAN3-22222/EL": dict(wl=("FAN3", (2, 2, 2, 2, 2)), h2=dict(size=64, buf_may_keep="T1"), metrics="EL",
-                          policy=(0, 0, 0), isolated=False, real=False, tiers=("thorough",)),
+                          policy=(0, 0, 0), named=("reversal",), isolated=False, real=False, tiers=("thorough",)),
 }
 
 _BASE: dict = {}  # spec -> canonical baseline
@@ -364,7 +368,7 @@ def real_items(names, quick):
 
 # ----------------------------- configurations -----------------------------
 
-def site_choice_lists(n, policy, quick):
+def site_choice_lists(n, policy, quick, named=SC.NAMED_ORDERS):
     """Non-default schedules (canonical choice tuples) explored for a site of n jobs."""
     full_upto, dev2_upto, dev1_upto = policy
     if n <= full_upto:
@@ -375,7 +379,7 @@ def site_choice_lists(n, policy, quick):
             k = 1
         if not quick and n <= dev2_upto:
             k = 2
-        lst = SC.site_schedules(n, k, full_upto=-1, named=SC.NAMED_ORDERS)
+        lst = SC.site_schedules(n, k, full_upto=-1, named=named)
     return [c for c in lst if c]
 
 
@@ -389,7 +393,7 @@ def configs_for(name, quick):
     out += [("njobs", n) for n in N_JOBS]
     out += [("joint", j) for j in JOINT]
     for seq, n in _SITES[name]:
-        out += [("site", seq, n, ch) for ch in site_choice_lists(n, policy, quick)]
+        out += [("site", seq, n, ch) for ch in site_choice_lists(n, policy, quick, d.get("named", SC.NAMED_ORDERS))]
     return out
 
 
@@ -406,12 +410,15 @@ def tree_for(names, quick):
     return tree, menus
 
 
-def diff_kind(got, base):
-    """exception | objectives (the sets of objective vectors differ) | tie-structure (same
-    objective vectors, another LoopTree for some of them)."""
+def diff_kind(got, base, name=None):
+    """exception | objectives (the sets of OPTIMISED objective vectors differ: energy and
+    latency, plus the memory usages when RESOURCE_USAGE is among the spec's metrics) |
+    tie-structure (same optimised objectives, another LoopTree -- possibly with another,
+    non-optimised, memory usage -- for some of them)."""
     if isinstance(got, str) or isinstance(base, str):
         return "exception"
-    return "tie-structure" if sorted(r[0] for r in got) == sorted(r[0] for r in base) else "objectives"
+    k = None if name is None or "R" in SPECS[name]["metrics"] else 2
+    return "tie-structure" if sorted(r[0][:k] for r in got) == sorted(r[0][:k] for r in base) else "objectives"
 
 
 def diff_note(got, base):
@@ -485,7 +492,7 @@ def family_of(name, cfg, info, sch, observed, base):
     """Names the varied dimension; schedule violations are named after the CALL SITE (the job
     function of the perturbed Parallel call) and the kind of difference, not after the spec,
     so that the same defect seen on several specs / through a joint order is one family."""
-    k, kind = cfg[0], diff_kind(observed, base)
+    k, kind = cfg[0], diff_kind(observed, base, name)
     if k == "site":
         return f"schedule/{info.get('site_label')}/{kind}", None
     if k in ("joint", "isolated"):
@@ -539,7 +546,7 @@ def real_body(cfg):
     forced = item["kind"] == "forced"
     ok = (not forced) or (r["achieved"] and r["same_sites"])
     if r["real"] != base:
-        kind = diff_kind(r["real"], base)
+        kind = diff_kind(r["real"], base, name)
         orders = {int(s): o for s, o in (r.get("site_orders") or {}).items()}
         hit = attribute(name, item["n_jobs"], orders, r["real"]) if orders else None
         if hit is not None:  # the virtual scheduler reproduces it from the recorded completion order of one site
@@ -551,7 +558,7 @@ def real_body(cfg):
                 "note": f"{name}: real joblib/loky run differs from the serial baseline ({diff_note(r['real'], base)})"}
     elif forced and r["virtual"] != base:
         viol = {"observed": r["virtual"], "expected": base,
-                "family": f"schedule/{item.get('site_label')}/{diff_kind(r['virtual'], base)}",
+                "family": f"schedule/{item.get('site_label')}/{diff_kind(r['virtual'], base, name)}",
                 "config": sample, "note": f"{name}: virtual run of a conformance schedule differs from the baseline"}
     return Result(outcome=(name, json.dumps(r["real"])), nontrivial=ok, validated=ok, violation=viol, sample=sample,
                   evaluations=2 if forced else 1,
